@@ -189,21 +189,56 @@ end Fit
 
 /-! ## parameters -/
 
-/-- `ParamGuard::check_ref` of `CountVectorizerParams` (the regex compilation aside):
-`some kind` = the error returned. -/
-def checkParams (nmin nmax : Nat) (lo hi : Float32) : Option String :=
+/-- `ParamGuard::check_ref` of `CountVectorizerParams` (the regex compilation aside), written once
+for any scalar: `some kind` = the error returned. -/
+def checkParamsG {α : Type} [LT α] [DecidableLT α] [OfNat α 0] [OfNat α 1]
+    (nmin nmax : Nat) (lo hi : α) : Option String :=
   if nmin = 0 ∨ nmax = 0 then some "InvalidNGramBoundaries"
   else if nmin > nmax then some "FlippedNGramBoundaries"
   else if lo < 0 ∨ hi < 0 ∨ lo > 1 ∨ hi > 1 then some "InvalidDocumentFrequencies"
   else if hi < lo then some "FlippedDocumentFrequencies"
   else none
 
+/-- the check as the driver runs it (`f32` fields) -/
+def checkParams (nmin nmax : Nat) (lo hi : Float32) : Option String :=
+  checkParamsG nmin nmax lo hi
+
+/-- `((min_df * n as f32).ceil() as usize, (max_df * n as f32) as usize)` for any scalar: the
+conversion `n as f32`, "round up and convert to a count" and "truncate to a count" are parameters. -/
+def absBoundsWith {α : Type} [Mul α] (ofNat : Nat → α) (ceilU floorU : α → Nat)
+    (lo hi : α) (n : Nat) : Nat × Nat :=
+  let len := ofNat n
+  (ceilU (lo * len), floorU (hi * len))
+
 /-- `((min_df * n as f32).ceil() as usize, (max_df * n as f32) as usize)`: `f32` product,
 lower bound rounded up, upper bound truncated, then the saturating conversion of Rust's
 `as usize` (NaN ↦ 0, negative ↦ 0, huge ↦ `usize::MAX`). -/
 def absBounds (lo hi : Float32) (n : Nat) : Nat × Nat :=
-  let len := Float32.ofNat n
-  ((lo * len).ceil.toUSize.toNat, (hi * len).toUSize.toNat)
+  absBoundsWith Float32.ofNat (fun x => x.ceil.toUSize.toNat) (fun x => x.toUSize.toNat) lo hi n
+
+/-! ## the string a document is tokenised from (`transform_string`, countgrams/mod.rs) -/
+
+/-- `transform_string`: NFKD first (only if `normalize`), then lower-casing (only if
+`convert_to_lowercase`).  The two Unicode maps (`unicode-normalization`, `str::to_lowercase`) are
+external parameters. -/
+def transformString {σ : Type} (nfkd lower : σ → σ) (normalize lowercase : Bool) (s : σ) : σ :=
+  let s := if normalize then nfkd s else s
+  if lowercase then lower s else s
+
+/-! ## the sparse row (`analyze_document`, `CsVec`) -/
+
+/-- the `CsVec` `analyze_document` builds from the dense row: `(column, count)` of the non-zero
+cells in increasing column order ("only insert non-zero elements") -/
+def sparseRow (row : List Nat) : List (Nat × Nat) :=
+  (row.zipIdx.filter fun p => decide (p.1 > 0)).map fun p => (p.2, p.1)
+
+/-- `CsVec::get(j)`: the stored value, `none` when the cell is not stored -/
+def sparseGet (sp : List (Nat × Nat)) (j : Nat) : Option Nat :=
+  (sp.find? fun p => p.1 == j).map (·.2)
+
+/-- number of stored cells of the CSR matrix (`CsMat::nnz`) -/
+def nnz (rows : List (List Nat)) : Nat :=
+  (rows.map fun r => (sparseRow r).length).foldl (· + ·) 0
 
 /-! ## tf-idf (tf_idf_vectorization.rs) -/
 
